@@ -229,14 +229,16 @@ AssignPos(ps, ws, vals) ==
   IF ps = <<>> THEN IF ws = <<>> THEN [ok |-> TRUE, vals |-> vals]
                     ELSE [ok |-> FALSE, why |-> [k |-> "surplus"]]
   ELSE LET p == Head(ps) IN
-    IF p.arity \in {"one", "opt"} THEN
-       LET r == Take(p, ws) IN
+    IF p.arity \in {"one", "opt", "fallback", "fallback_with"} THEN
+       LET r == Take(p, ws)
+           dflt == IF p.vt = "int" THEN FallbackInt ELSE FallbackStr IN
        IF r.st = "final" THEN [ok |-> FALSE, why |-> [k |-> "strict", id |-> p.id]]
        ELSE IF r.st = "conv" THEN [ok |-> FALSE, why |-> [k |-> "conv", id |-> p.id, w |-> r.w]]
        ELSE IF r.st = "absent"
             THEN (IF p.arity = "one" THEN [ok |-> FALSE, why |-> [k |-> "missing", id |-> p.id]]
-                  ELSE AssignPos(Tail(ps), r.rest, Append(vals, "NONE")))
-       ELSE AssignPos(Tail(ps), r.rest, Append(vals, IF p.arity = "one" THEN r.w ELSE [some |-> r.w]))
+                  \* a defaulted positional that finds no word of its own leaves every word where it is
+                  ELSE AssignPos(Tail(ps), r.rest, Append(vals, IF p.arity = "opt" THEN "NONE" ELSE dflt)))
+       ELSE AssignPos(Tail(ps), r.rest, Append(vals, IF p.arity = "opt" THEN [some |-> r.w] ELSE r.w))
     ELSE LET r == TakeAll(p, ws, <<>>) IN
        IF r.st = "final" THEN [ok |-> FALSE, why |-> [k |-> "strict", id |-> p.id]]
        ELSE IF r.st = "conv" THEN [ok |-> FALSE, why |-> [k |-> "conv", id |-> p.id, w |-> r.w]]
@@ -297,6 +299,9 @@ LeafItems(def, it) ==
   LET A == def.alpha  W == RangeOf(A.eqvals) IN
   IF it.kind # "arg"
   THEN {[t |-> "name", s |-> n, txt |-> n] : n \in NamesOf(it)}
+       \* a value attached to a name that takes none (`--verbose=x`): never a sentence
+       \cup (IF "flageq" \in DOMAIN A /\ A.flageq
+             THEN {[t |-> "eq", s |-> n, v |-> A.eqvals[1], txt |-> n \o "=" \o A.eqvals[1]] : n \in NamesOf(it)} ELSE {})
   ELSE (IF "sep" \in RangeOf(A.spells)
         THEN {[t |-> "name", s |-> n, txt |-> n] : n \in NamesOf(it)} ELSE {})
        \cup (IF "eq" \in RangeOf(A.spells)
